@@ -259,7 +259,7 @@ impl World for TendrilWorld {
         self.prop == TProp::C12
     }
     fn expected_probes(&self) -> Vec<&'static str> {
-        let mut v = vec!["transition_small_to_large-owned", "transition_large-owned_to_shared", "transition_shared_to_large-owned", "op_push_tendril", "op_try_subtendril", "op_push_big"];
+        let mut v = vec!["transition_small_to_large-owned", "transition_large-owned_to_shared", "transition_shared_to_large-owned", "op_push_tendril", "op_try_subtendril", "op_push_big", "op_read_to_tendril"];
         if self.prop == TProp::C12 {
             v.push("ledger_tracked_allocations");
         }
